@@ -1,6 +1,506 @@
-//! Property C16: correspondence and oracle (stub: nothing built yet).
-use crate::report::Report;
+//! Property C16: the optional refactoring rules preserve program behaviour.
+//!  (1) per rule: correspondence of the Lean rule model (`c16.rule`) with the real `Rule::process`
+//!      (output trees identical) + execution oracle (original vs REAL output on the reference
+//!      semantics) — `rulecheck::check_program` — on the shared generator (Lua 5.1 and Luau
+//!      features) and on the targeted generator `progen_c16` (the shapes the property lists);
+//!  (2) end to end through `darklua_core::process` (text re-parsed, executed): each rule alone
+//!      and each rule in front of / behind the 13 default rules, all three generators;
+//!  (3) `FindVariables` + `DefaultVisitor` (real, public API) against the Lean `mentions` model;
+//!  (4) `math.sqrt(x)` vs `x ^ 0.5` bit-exactly on boundary and random doubles through the real
+//!      rule and the executable semantics (`c16.sqrtlaw` is the per-value hypothesis);
+//!  (5) known findings replayed first; programs outside the decidable hypotheses of the
+//!      `_partial` theorems (`c16.h`) are judged for correspondence only.
+use crate::exec;
+use crate::model::{hex, Model};
+use crate::progen::{self, Features};
+use crate::progen_c16;
+use crate::props::c01::DEFAULT_RULES;
+use crate::report::{self, Report, Violation};
+use crate::rng::Rng;
+use crate::rulecheck::{self, CaseResult, RuleCase};
+use darklua_core::process::processors::FindVariables;
+use darklua_core::process::{DefaultVisitor, NodeVisitor};
+use serde_json::{json, Value};
 
-pub fn run(report: &mut Report, _replay: Option<&str>) {
-    report.notes.push("C16: no harness yet".to_owned());
+pub const RULES: [&str; 5] = [
+    "group_local_assignment",
+    "convert_local_function_to_assign",
+    "convert_function_to_assignment",
+    "remove_method_call",
+    "convert_square_root_call",
+];
+
+fn inside_h(model: &mut Model, rule: &str, sexp: &str) -> bool {
+    match model.ask(&format!("c16.h {} {}", hex(rule.as_bytes()), sexp)).as_str() {
+        "true" => true,
+        "false" => false,
+        other => { eprintln!("c16.h answered {:?} for rule {}", other, rule); panic!("c16.h answered {}", other) }
+    }
+}
+
+/// One program through one rule. Outside the rule's hypothesis the oracle verdict is only counted.
+fn check_rule(model: &mut Model, r: &mut Report, rule: &str, code: &str) -> (CaseResult, bool) {
+    let block = match exec::parse(code) {
+        Ok(b) => b,
+        Err(_) => return (CaseResult::Skipped("parse"), true),
+    };
+    let sexp = crate::astsexp::block_to_sexp(&block);
+    let inside = inside_h(model, rule, &sexp);
+    let answer = model.ask(&format!("c16.rule {} {}", hex(rule.as_bytes()), sexp));
+    let modelled = answer != "unmodelled";
+    if !modelled {
+        r.count("model_unmodelled_input", 1);
+    }
+    let json_text = format!("'{}'", rule);
+    let case = RuleCase { prop: "c16", rule_name: rule, rule_json: &json_text, modelled };
+    if inside {
+        (rulecheck::check_program(model, r, &case, code), true)
+    } else {
+        let mut scratch = Report::new("C16", &r.tier, r.seed);
+        let result = rulecheck::check_program(model, &mut scratch, &case, code);
+        for v in scratch.violations {
+            if v.kind == "oracle" && v.check.ends_with(":behaviour") {
+                r.count(&format!("behaviour_differs_outside_hypothesis:{}", rule), 1);
+            } else {
+                r.violation(v);
+            }
+        }
+        for (k, n) in scratch.counters {
+            r.count(&k, n);
+        }
+        r.count(&format!("outside_hypothesis:{}", rule), 1);
+        (result, false)
+    }
+}
+
+enum Pipeline {
+    /// process error or unusable input
+    Skip,
+    Panic(String),
+    Reparse(String, String),
+    /// original outcome, transformed outcome, output text (only when the original is error-free)
+    Ran(String, String, String),
+}
+
+fn run_pipeline(model: &mut Model, code: &str, rules: &[&str], generator: &str) -> (String, Pipeline) {
+    let resources = darklua_core::Resources::from_memory();
+    resources.write("src/main.lua", code).unwrap();
+    let rule_list: Vec<String> = rules.iter().map(|r| format!("'{}'", r)).collect();
+    let config_text = format!("{{ generator: '{}', rules: [{}] }}", generator, rule_list.join(", "));
+    let config: darklua_core::Configuration = json5::from_str(&config_text).expect("configuration");
+    let result = std::panic::catch_unwind(std::panic::AssertUnwindSafe(|| {
+        darklua_core::process(&resources, darklua_core::Options::new("src").with_configuration(config))
+    }));
+    match result {
+        Ok(Ok(r)) => {
+            if r.result().is_err() {
+                return (config_text, Pipeline::Skip);
+            }
+        }
+        Ok(Err(_)) => return (config_text, Pipeline::Skip),
+        Err(_) => return (config_text, Pipeline::Panic("darklua_core::process panicked".into())),
+    }
+    let output = resources.get("src/main.lua").unwrap();
+    let block0 = match exec::parse(code) { Ok(b) => b, Err(_) => return (config_text, Pipeline::Skip) };
+    let block1 = match exec::parse(&output) {
+        Ok(b) => b,
+        Err(e) => return (config_text, Pipeline::Reparse(e, output)),
+    };
+    match rulecheck::oracle_compare(model, &block0, &block1) {
+        Some((o0, o1)) => (config_text, Pipeline::Ran(o0, o1, output)),
+        None => (config_text, Pipeline::Skip),
+    }
+}
+
+/// end to end: real pipeline on memory resources, output text re-parsed and executed. A pipeline
+/// that contains other rules than the five of C16 is charged to C16 only when the same pipeline
+/// WITHOUT the C16 rules is fine (otherwise the defect belongs to the other rules: C01).
+fn end_to_end(model: &mut Model, report: &mut Report, code: &str, rules: &[&str], generator: &str) {
+    let (config_text, outcome) = run_pipeline(model, code, rules, generator);
+    let others: Vec<&str> = rules.iter().copied().filter(|r| !RULES.contains(r)).collect();
+    let mut others_alone_bad = || -> bool {
+        if others.is_empty() {
+            return false;
+        }
+        match run_pipeline(model, code, &others, generator).1 {
+            Pipeline::Ran(o0, o1, _) => o0 != o1,
+            Pipeline::Skip => false,
+            _ => true,
+        }
+    };
+    // Which rule of the pipeline is the first to change behaviour? Returns (index, inside its hypothesis
+    // on the program it was given). `None`: no single step could be blamed (e.g. text generation).
+    let culprit = |model: &mut Model| -> Option<(usize, bool)> {
+        let mut previous_text = code.to_owned();
+        for i in 1..=rules.len() {
+            match run_pipeline(model, code, &rules[..i], "readable").1 {
+                Pipeline::Ran(o0, o1, output) => {
+                    if o0 != o1 {
+                        let rule = rules[i - 1];
+                        let inside = if RULES.contains(&rule) {
+                            match exec::parse(&previous_text) {
+                                Ok(block) => inside_h(model, rule, &crate::astsexp::block_to_sexp(&block)),
+                                Err(_) => true,
+                            }
+                        } else {
+                            true
+                        };
+                        return Some((i - 1, inside));
+                    }
+                    previous_text = output;
+                }
+                Pipeline::Skip => {}
+                _ => return Some((i - 1, true)),
+            }
+        }
+        None
+    };
+    let mine: Vec<&str> = rules.iter().copied().filter(|r| RULES.contains(r)).collect();
+    let check = if mine.len() == 1 { format!("e2e:{}", mine[0]) } else { "e2e:all-five".to_owned() };
+    match outcome {
+        Pipeline::Skip => report.count("e2e_process_error_or_original_not_error_free", 1),
+        Pipeline::Panic(what) => {
+            if others_alone_bad() {
+                report.count("e2e_other_rules_alone_already_fail", 1);
+                return;
+            }
+            report.violation(Violation {
+                kind: "oracle".into(),
+                check: "e2e:panic".into(),
+                what,
+                input: json!({"config": config_text, "code": code}),
+                failing_input_found: true,
+            });
+        }
+        Pipeline::Reparse(e, output) => {
+            if others_alone_bad() {
+                report.count("e2e_other_rules_alone_already_fail", 1);
+                return;
+            }
+            report.violation(Violation {
+                kind: "oracle".into(),
+                check: "e2e:reparse".into(),
+                what: format!("output of the pipeline does not parse: {}", e),
+                input: json!({"config": config_text, "code": code, "output": output}),
+                failing_input_found: true,
+            });
+        }
+        Pipeline::Ran(o0, o1, output) => {
+            report.count("e2e_compared", 1);
+            if o0 != o1 {
+                if others_alone_bad() {
+                    report.count("e2e_other_rules_alone_already_fail", 1);
+                    return;
+                }
+                if rules.len() > 1 {
+                    if let Some((i, inside)) = culprit(model) {
+                        if !RULES.contains(&rules[i]) {
+                            // a default rule breaks the (behaviour-preserving) output of the rules before it: C01's business
+                            report.count(&format!("e2e_charged_to_other_rule:{}", rules[i]), 1);
+                            report.sample(json!({"e2e_charged_to_other_rule": rules[i], "config": config_text, "code": code}));
+                            return;
+                        }
+                        if !inside {
+                            report.count(&format!("e2e_intermediate_program_outside_hypothesis:{}", rules[i]), 1);
+                            report.sample(json!({"e2e_intermediate_program_outside_hypothesis": rules[i], "config": config_text, "code": code}));
+                            return;
+                        }
+                    }
+                }
+                report.violation(Violation {
+                    kind: "oracle".into(),
+                    check,
+                    what: "processed file behaves differently from the original".into(),
+                    input: json!({"config": config_text, "code": code, "output": output, "original_outcome": o0, "transformed_outcome": o1}),
+                    failing_input_found: true,
+                });
+            }
+        }
+    }
+}
+
+/// (3) the real `FindVariables` against the Lean `mentions`
+fn check_mentions(model: &mut Model, r: &mut Report, rng: &mut Rng, code: &str) {
+    let block = match exec::parse(code) { Ok(b) => b, Err(_) => return };
+    let sexp = crate::astsexp::block_to_sexp(&block);
+    // candidate names: identifiers occurring in the text, plus one that does not
+    let mut names: Vec<String> = code
+        .split(|c: char| !(c.is_ascii_alphanumeric() || c == '_'))
+        .filter(|w| !w.is_empty() && !w.chars().next().unwrap().is_ascii_digit())
+        .map(|w| w.to_owned())
+        .collect();
+    names.sort();
+    names.dedup();
+    names.push("never_used_name".to_owned());
+    for _ in 0..4 {
+        let name = rng.pick(&names).clone();
+        let mut find = FindVariables::new(&name);
+        let mut copy = block.clone();
+        DefaultVisitor::visit_block(&mut copy, &mut find);
+        let real = find.has_found_usage();
+        let answer = model.ask(&format!("c16.mentions {} {}", hex(name.as_bytes()), sexp));
+        r.count("mentions_compared", 1);
+        r.hist("mentions", if real { "found" } else { "not-found" });
+        if answer != (if real { "true" } else { "false" }) {
+            r.violation(Violation {
+                kind: "correspondence".into(),
+                check: "find_variables:model".into(),
+                what: format!("FindVariables({}) with DefaultVisitor says {}, the Lean model says {}", name, real, answer),
+                input: json!({"name": name, "code": code}),
+                failing_input_found: false,
+            });
+        }
+    }
+}
+
+/// The shared generator can produce `b = (b .. 5) .. (b .. i)` inside nested loops: the string doubles at
+/// every iteration and the reference run needs exponential memory. Such programs are skipped (counted).
+fn doubles_a_string(code: &str) -> bool {
+    for line in code.lines() {
+        let line = line.trim();
+        if let Some(eq) = line.find(" = ") {
+            let target = &line[..eq];
+            let rhs = &line[eq + 3..];
+            if !target.is_empty() && target.chars().all(|c| c.is_ascii_alphanumeric() || c == '_') && rhs.contains("..") {
+                let occurrences = rhs
+                    .split(|c: char| !(c.is_ascii_alphanumeric() || c == '_'))
+                    .filter(|w| *w == target)
+                    .count();
+                if occurrences >= 2 {
+                    return true;
+                }
+            }
+        }
+    }
+    false
+}
+
+fn lua_number(x: f64) -> String {
+    if x.is_infinite() {
+        if x > 0.0 { "(1/0)".to_owned() } else { "(-(1/0))".to_owned() }
+    } else if x == 0.0 && x.is_sign_negative() {
+        "(-0)".to_owned()
+    } else if x < 0.0 {
+        format!("(-{:e})", -x)
+    } else {
+        format!("{:e}", x)
+    }
+}
+
+/// (4) `emit(math.sqrt(x))` through the real rule, bit-exact comparison of the traces
+fn check_sqrt_value(model: &mut Model, r: &mut Report, x: f64, listed: &[String]) {
+    let code = format!("emit(math.sqrt({}))", lua_number(x));
+    let rules = vec![exec::rule_from_json("'convert_square_root_call'").unwrap()];
+    let law = model.ask(&format!("c16.sqrtlaw {}", crate::model::f64_wire(x)));
+    let fails = rulecheck::oracle_fails(model, &rules, &code);
+    r.count("sqrt_values_checked", 1);
+    match (law.as_str(), fails) {
+        ("true", Some((o0, o1, _))) => r.violation(Violation {
+            kind: "oracle".into(),
+            check: "convert_square_root_call:value".into(),
+            what: "math.sqrt(x) and x ^ 0.5 differ although sqrt x = pow x 0.5 holds for this double".into(),
+            input: json!({"rule": "'convert_square_root_call'", "code": code, "original_outcome": o0, "transformed_outcome": o1}),
+            failing_input_found: true,
+        }),
+        ("false", Some(_)) => {
+            r.count("sqrt_law_fails_and_rule_differs", 1);
+            if !listed.contains(&code) {
+                r.hist("sqrt_law_fails_unlisted", if x.is_nan() { "nan" } else if x < 0.0 { "negative" } else { "positive-finite-or-inf" });
+                r.sample(json!({"sqrt_law_fails_unlisted": code}));
+            }
+        }
+        ("false", None) => r.count("sqrt_law_fails_but_program_agrees", 1),
+        ("true", None) => r.case(Some(("sqrt", x.to_bits()))),
+        (other, _) => panic!("c16.sqrtlaw answered {}", other),
+    }
+}
+
+fn replay_known(model: &mut Model, r: &mut Report) -> Vec<String> {
+    let mut sqrt_listed = Vec::new();
+    for entry in report::known_findings("C16") {
+        let id = entry["id"].as_str().unwrap_or("?").to_owned();
+        let witnesses: Vec<Value> = match &entry["witness"] {
+            Value::Array(a) => a.clone(),
+            other => vec![other.clone()],
+        };
+        for w in witnesses {
+            let (rule, code) = match (w["rule"].as_str(), w["code"].as_str()) {
+                (Some(a), Some(b)) => (a.to_owned(), b.to_owned()),
+                _ => continue,
+            };
+            if rule.contains("convert_square_root_call") {
+                sqrt_listed.push(code.clone());
+            }
+            let rules = match exec::rule_from_json(&rule) { Ok(x) => vec![x], Err(_) => continue };
+            if let Some((o0, o1, _)) = rulecheck::oracle_fails(model, &rules, &code) {
+                r.known_finding(&id, &format!("{} on `{}`: original {} transformed {}", entry["expected_wrong"].as_str().unwrap_or(""), code.replace('\n', " "), o0, o1));
+            }
+        }
+    }
+    sqrt_listed
+}
+
+fn run_replay(r: &mut Report, path: &str) {
+    let text = std::fs::read_to_string(path).expect("replay file");
+    let v: Value = serde_json::from_str(&text).expect("replay JSON");
+    let input = &v["input"];
+    let mut model = Model::spawn();
+    let code = input["code"].as_str().unwrap_or("").to_owned();
+    if let Some(config) = input["config"].as_str() {
+        // end-to-end replay
+        let cfg: Value = json5::from_str(config).unwrap_or(Value::Null);
+        let generator = cfg["generator"].as_str().unwrap_or("dense").to_owned();
+        let rules: Vec<String> = cfg["rules"].as_array().map(|a| a.iter().filter_map(|x| x.as_str().map(|s| s.to_owned())).collect()).unwrap_or_default();
+        let refs: Vec<&str> = rules.iter().map(|s| s.as_str()).collect();
+        end_to_end(&mut model, r, &code, &refs, &generator);
+    } else if let Some(name) = input["name"].as_str() {
+        let _ = name;
+        let mut rng = Rng::new(r.seed);
+        check_mentions(&mut model, r, &mut rng, &code);
+    } else if let Some(rule) = input["rule"].as_str() {
+        let name = rule.trim_matches('\'');
+        check_rule(&mut model, r, name, &code);
+    }
+    r.case(None::<u8>);
+}
+
+pub fn run(report: &mut Report, replay: Option<&str>) {
+    if let Some(path) = replay {
+        run_replay(report, path);
+        return;
+    }
+    report.rule = "programs from (a) the shared type-directed generator with Lua 5.1 and with Luau features and (b) the \
+        targeted generator progen_c16 (consecutive locals whose later initialisers read/capture/shadow earlier names, \
+        multi-value initialisers (calls, varargs), directly and mutually recursive local functions, methods on nested \
+        fields, method calls on shadowed/parenthesised/effectful receivers, math.sqrt with shadowed `math`), nested in \
+        do/function/loop/if/repeat; each program through each of the 5 rules (real Rule::process: tree compared with the \
+        Lean model, original and output executed on the reference semantics) and end-to-end through darklua_core::process \
+        (rule alone, rule before and after the 13 default rules, the three generators). Non-trivial = the rule changed \
+        the tree; distinct by (rule, program text). Programs outside a rule's decidable hypothesis (c16.h) are compared \
+        for correspondence only."
+        .to_owned();
+    let thorough = report.is_thorough();
+    let seed = report.seed;
+
+    // ---- known findings first; sqrt boundary values
+    {
+        let mut model = Model::spawn();
+        let listed = replay_known(&mut model, report);
+        let boundary: [f64; 16] = [
+            0.0, -0.0, 1.0, 2.0, 0.25, 1e-320, f64::MIN_POSITIVE, f64::MAX, f64::INFINITY, f64::NEG_INFINITY,
+            -1.0, 4.0, 1e300, 3.0, 10.0, 0.1,
+        ];
+        for x in boundary {
+            check_sqrt_value(&mut model, report, x, &listed);
+        }
+        let mut rng = Rng::new(seed ^ 0x5157);
+        let n = if thorough { 12000 } else { 1200 };
+        for i in 0..n {
+            // random positive doubles: uniform exponent and mantissa, and small integers
+            let x = if i % 3 == 0 {
+                rng.range(0, 100000) as f64
+            } else {
+                let bits = ((rng.range(1, 2045) as u64) << 52) | (rng.next_u64() & ((1u64 << 52) - 1));
+                f64::from_bits(bits)
+            };
+            check_sqrt_value(&mut model, report, x, &listed);
+        }
+    }
+
+    // development aid (mutation testing): C16_PROGRAMS=<n> overrides the number of programs per thread
+    let programs_per_thread: usize = std::env::var("C16_PROGRAMS")
+        .ok()
+        .and_then(|v| v.parse().ok())
+        .unwrap_or(if thorough { 3000 } else { 450 });
+    let threads = 12;
+    report.parallel(threads, |tid, r| {
+        let mut model = Model::spawn();
+        let mut rng = Rng::new(seed.wrapping_mul(1000).wrapping_add(tid as u64).wrapping_add(16_000_000));
+        for n in 0..programs_per_thread {
+            // two thirds targeted, one third shared (alternating Lua 5.1 / Luau)
+            let (code, source) = match n % 6 {
+                0 => (progen::generate(&mut rng.fork(), Features::lua51(), 60).0, "shared-lua51"),
+                1 => (progen::generate(&mut rng.fork(), Features::luau(), 60).0, "shared-luau"),
+                2 => {
+                    let focus: &[&str] = *rng.pick(&[&["gl", "f17"][..], &["lf"][..], &["fa"][..], &["mc", "receiver"][..], &["sq"][..]]);
+                    let (c, tags) = progen_c16::generate(&mut rng.fork(), false, focus);
+                    for t in tags { r.hist("targeted_shapes", t); }
+                    (c, "targeted-focus")
+                }
+                3 => {
+                    let (c, tags) = progen_c16::generate(&mut rng.fork(), true, &[]);
+                    for t in tags { r.hist("targeted_shapes", t); }
+                    (c, "targeted-luau")
+                }
+                _ => {
+                    let (c, tags) = progen_c16::generate(&mut rng.fork(), false, &[]);
+                    for t in tags { r.hist("targeted_shapes", t); }
+                    (c, "targeted-lua51")
+                }
+            };
+            r.hist("program_source", source);
+            if doubles_a_string(&code) {
+                r.count("skipped_program_doubling_a_string_in_a_loop", 1);
+                continue;
+            }
+            if let Ok(dir) = std::env::var("C16_TRACE_DIR") {
+                // development aid: the program each thread is working on
+                let _ = std::fs::write(format!("{}/cur-{}.lua", dir, tid), &code);
+            }
+            let mut inside_all = Vec::new();
+            for rule in RULES.iter() {
+                // a systematic break: stop shrinking the same failure over and over
+                if r.violations.iter().filter(|v| v.check.starts_with(rule)).count() >= 4 {
+                    r.count("rule_checks_skipped_after_repeated_violations", 1);
+                    inside_all.push(false);
+                    continue;
+                }
+                let (result, inside) = check_rule(&mut model, r, rule, &code);
+                inside_all.push(inside);
+                match &result {
+                    CaseResult::Fired => {
+                        r.hist("rule_fired", rule);
+                        r.case(Some((rule, &code)));
+                        if r.samples.len() < 6 && rng.chance(1, 20) {
+                            r.sample(json!({"rule": rule, "code": code}));
+                        }
+                    }
+                    CaseResult::Trivial => r.case(None::<u8>),
+                    CaseResult::Skipped(why) => {
+                        r.hist("skipped", why);
+                        r.case(None::<u8>);
+                    }
+                }
+            }
+            check_mentions(&mut model, r, &mut rng, &code);
+            // ---- end to end: one rule alone, the same rule with the default rules, all five together
+            let idx = rng.below(RULES.len());
+            let rule = RULES[idx];
+            if inside_all[idx] {
+                let generator = *rng.pick(&["retain_lines", "dense", "readable"]);
+                end_to_end(&mut model, r, &code, &[rule], generator);
+                let mut pipeline: Vec<&str> = DEFAULT_RULES.to_vec();
+                if rng.chance(1, 2) {
+                    pipeline.insert(0, rule);
+                } else {
+                    pipeline.push(rule);
+                }
+                let generator = *rng.pick(&["retain_lines", "dense", "readable"]);
+                end_to_end(&mut model, r, &code, &pipeline, generator);
+                r.hist("e2e_rule", rule);
+            } else {
+                r.count("e2e_skipped_outside_hypothesis", 1);
+            }
+            if inside_all.iter().all(|b| *b) && rng.chance(1, 2) {
+                let mut all: Vec<&str> = RULES.to_vec();
+                rng.shuffle(&mut all);
+                if rng.chance(1, 2) {
+                    all.extend(DEFAULT_RULES.iter().copied());
+                }
+                let generator = *rng.pick(&["retain_lines", "dense", "readable"]);
+                end_to_end(&mut model, r, &code, &all, generator);
+                r.count("e2e_all_five", 1);
+            }
+        }
+    });
 }
